@@ -29,7 +29,7 @@ def ToPack : List String :=
   ["in := io.NewDataInputX(b)", "return ReadPack(in)"]
 
 def EventPack_Write : List String :=
-  ["this.AbstractPack.Write(dout)", "dout.WriteByte(this.Level)", "dout.WriteText(this.Title)", "dout.WriteText(this.Message)", "if this.Uuid != \"\" {", "this.Attr.Put(UUID_KEY, this.Uuid)", "}", "if this.Escalation {", "this.Attr.Put(ESCALATION_KEY, \"true\")", "} else {", "this.Attr.Put(ESCALATION_KEY, \"false\")", "}", "this.Attr.Put(STATUS_KEY, fmt.Sprintf(\"%d\", this.Status))", "this.Attr.Put(OTYPE_KEY, fmt.Sprintf(\"%d\", this.Otype))", "sz := this.Attr.Size()", "dout.WriteByte(byte(sz))", "en := this.Attr.Entries()", "for i < sz {", "dout.WriteText(e.GetKey())", "dout.WriteText(e.GetValue().(string))", "}"]
+  ["this.AbstractPack.Write(dout)", "dout.WriteByte(this.Level)", "dout.WriteText(this.Title)", "dout.WriteText(this.Message)", "if this.Uuid != \"\" {", "this.Attr.Put(UUID_KEY, this.Uuid)", "}", "if this.Escalation {", "this.Attr.Put(ESCALATION_KEY, \"true\")", "} else {", "this.Attr.Put(ESCALATION_KEY, \"false\")", "}", "this.Attr.Put(STATUS_KEY, fmt.Sprintf(\"%d\", this.Status))", "this.Attr.Put(OTYPE_KEY, fmt.Sprintf(\"%d\", this.Otype))", "sz := this.Attr.Size()", "dout.WriteByte(byte(sz))", "en := this.Attr.Entries()", "for i < sz {", "dout.WriteText(e.GetKey())", "dout.WriteText(e.GetValue().(string))", "}", "this.Attr.Remove(UUID_KEY)", "this.Attr.Remove(ESCALATION_KEY)", "this.Attr.Remove(STATUS_KEY)", "this.Attr.Remove(OTYPE_KEY)"]
 
 def EventPack_Read : List String :=
   ["this.AbstractPack.Read(din)", "this.Level = din.ReadByte()", "this.Title = din.ReadText()", "this.Message = din.ReadText()", "sz := int(din.ReadByte())", "for i < sz {", "key := din.ReadText()", "value := din.ReadText()", "this.Attr.Put(key, value)", "}", "val := this.Attr.Remove(ESCALATION_KEY)", "if val != nil {", "if val.(string) == \"true\" {", "this.Escalation = true", "} else {", "this.Escalation = false", "}", "}", "val = this.Attr.Remove(UUID_KEY)", "if val != nil {", "this.Uuid = val.(string)", "} else {", "}", "val = this.Attr.Remove(OTYPE_KEY)", "if val != nil {", "if err == nil {", "this.Otype = int32(v)", "} else {", "this.Otype = 0", "}", "}", "val = this.Attr.Remove(STATUS_KEY)", "if val != nil {", "if err == nil {", "this.Status = int32(v)", "} else {", "this.Status = 0", "}", "}"]
@@ -221,7 +221,7 @@ def StatErrorPack_SetRecordsArray : List String :=
   ["out := io.NewDataOutputX()", "sz := len(items)", "out.WriteShort(int16(sz))", "for i < sz {", "this.WriteRec(out, items[i])", "}", "this.Records = out.ToByteArray()", "this.RecordCount = int32(sz)"]
 
 def StatErrorPack_GetRecords : List String :=
-  ["in := io.NewDataInputX(this.Records)", "sz := int(in.ReadShort())", "in.CheckCount(sz, 18)", "for i < sz {", "items[i] = this.ReadRec(in)", "}", "return items"]
+  ["in := io.NewDataInputX(this.Records)", "sz := int(in.ReadShort()) & 0xffff", "in.CheckCount(sz, 18)", "for i < sz {", "items[i] = this.ReadRec(in)", "}", "return items"]
 
 def StatServicePack_SetRecords : List String :=
   ["o := io.NewDataOutputX()", "o.WriteShort(int16(size))", "for i < size {", "this.WriteRec(o, items.NextElement().(*ServiceRec))", "}", "this.Records = o.ToByteArray()", "this.RecordCount = size", "return this"]
@@ -236,6 +236,6 @@ def SMDownCheckPack_SetRecords : List String :=
   ["out := io.NewDataOutputX()", "sz := len(items)", "out.WriteShort(int16(sz))", "for i < sz {", "this.WriteRec(out, items[i])", "}", "this.Records = out.ToByteArray()", "this.RecordCount = int32(sz)"]
 
 def SMDownCheckPack_GetRecords : List String :=
-  ["in := io.NewDataInputX(this.Records)", "sz := int(in.ReadShort())", "in.CheckCount(sz, 7)", "for i < sz {", "items[i] = this.ReadRec(in)", "}", "return items"]
+  ["in := io.NewDataInputX(this.Records)", "sz := int(in.ReadShort()) & 0xffff", "in.CheckCount(sz, 7)", "for i < sz {", "items[i] = this.ReadRec(in)", "}", "return items"]
 
 end Packs.Skeletons
